@@ -242,7 +242,7 @@ def judge(h, opts, raised, other, acc, case, organic=False):
     if raised:
         acc.count('obs:analysis-error')
     if other is not None:
-        acc.viol('%s:raises:%s' % (cls, type(other).__name__),
+        acc.viol('raises:%s:%s' % (type(other).__name__, cls),
                  'solve raised %s: %s' % (type(other).__name__, str(other)[:200]), case)
         return
     if h.lin and opts['maxiter'] == 1:
@@ -304,11 +304,12 @@ def judge(h, opts, raised, other, acc, case, organic=False):
     K = len(norms) - 1
     for cid, text in viol:
         if qids is not None and cid not in qids:
-            key = '%s:stall-rel-first-reference-is-abs-norm0:%s' % (cls, cid)
-        elif cid == 'failure-reported-although-converged' and (fired == K or qfired == K) and K >= 1:
-            key = '%s:stall-and-converged-same-iterate:reported-failure' % cls
+            key = 'stall-rel-first-reference-is-abs-norm0:%s:%s' % (cid, cls)
+        elif cid == 'failure-reported-although-converged' and (fired == K or qfired == K) and K >= 1 \
+                and any('stalled' in m for m in h.log['f']):
+            key = 'stall-and-converged-same-iterate:reported-failure:%s' % cls
         else:
-            key = '%s:%s' % (cls, cid)
+            key = '%s:%s' % (cid, cls)
         acc.viol(key, '%s [%s] norms=%s opts=%s' % (text, h.cfgname, norms[:8], _short(opts)), case,
                  new_case=first)
         first = False
@@ -557,7 +558,7 @@ def run_organic(seed, n, cfgnames, acc):
         try:
             run_organic_case(case, acc)
         except Exception as e:   # harness trouble on one case must not kill the shard silently
-            acc.viol('%s:organic-harness-raises:%s' % (CONFIGS[case['config']]['cls'], type(e).__name__),
+            acc.viol('organic-harness-raises:%s:%s' % (type(e).__name__, CONFIGS[case['config']]['cls']),
                      str(e)[:300], case)
 
 
